@@ -7,5 +7,9 @@ CONSTANTS
   PanicKinds = {"str", "err", "rt"}
   Breaker = FALSE
   Emit = TRUE
+  BeginOuts = {"ok", "fail", "bad", "noconn"}
+  StmtErrs = {"plain"}
+  FinErrs = {"plain"}
+  CtxKinds = {}
 INVARIANTS NoDeviation PrintScript
 CHECK_DEADLOCK FALSE
